@@ -27,6 +27,7 @@
 #include <algorithm>
 #include <cstddef>
 #include <cstring>
+#include <functional>
 #include <iterator>
 #include <memory>
 #include <type_traits>
@@ -955,8 +956,10 @@ void generate_pixels(View const& view, F fun)
     }
     else
     {
+        // std::generate takes the generator by value: pass a reference so that
+        // its state carries over from one row to the next, as it does for 1D-traversable views
         for (std::ptrdiff_t y = 0; y < view.height(); ++y)
-            std::generate(view.row_begin(y), view.row_end(y), fun);
+            std::generate(view.row_begin(y), view.row_end(y), std::ref(fun));
     }
 }
 
